@@ -377,6 +377,12 @@ class Simulation:
             others = [a for a in run if a is not current]
             if not others:
                 return current
+            if self.knobs.sched == "enum":
+                # systematic exploration: a scheduling choice exists only before the coarse 'protocol steps' on the focus path
+                op = current.pending
+                if op is None or not self._is_enum_point(op):
+                    return current
+                return ([current] + others)[self.tape.choose(len(others) + 1, "enum.sched")]
             if self._want_switch(current):
                 return others[self.tape.choose(len(others), "sched.to")]
             return current
@@ -386,12 +392,21 @@ class Simulation:
 
     def _want_switch(self, current: Actor) -> bool:
         k = self.knobs
+        if k.sched == "enum":
+            raise HarnessError("enum policy does not use _want_switch")
         if k.sched == "focus":
             op = current.pending
             if op is None or not self._is_focus(op):
                 return False
             return self.tape.flag(max(k.switch_permille, 500), "sched.sw")
         return self.tape.flag(k.switch_permille, "sched.sw")
+
+    def _is_enum_point(self, op: Op) -> bool:
+        if op.name == "flock":
+            return True
+        if op.name in ("replace", "rename") and op.path2 in self.focus_paths:
+            return True
+        return op.name == "open_r" and op.path in self.focus_paths
 
     def _is_focus(self, op: Op) -> bool:
         if not self.focus_paths:
